@@ -684,6 +684,7 @@ func domainOpts(codecName string, r *kit.Rng) gen.ResultOpts {
 		o.Text = gen.TextOpts{CR: true, CRLF: true}
 		o.Zone = true
 		o.NoZoneMinus1 = true // Go's Time.MarshalBinary cannot represent a zone of -00:01 (reserved marker for UTC)
+		o.ZoneOddSeconds = true
 	}
 	if r.Chance(0.02) {
 		o.MaxBody = 70000
@@ -819,6 +820,104 @@ func codecRun(c *run.Ctx, r *kit.Rng, s *kit.Summary, cn string, n int) {
 	}
 }
 
+// recWriter records what every Encode call hands to the writer.
+type recWriter struct{ buf bytes.Buffer }
+
+func (w *recWriter) Write(p []byte) (int, error) { return w.buf.Write(p) }
+
+func zoneTok(x *vegeta.Result) string {
+	if x.Timestamp.Location() == time.UTC {
+		return "u"
+	}
+	_, off := x.Timestamp.Zone()
+	return strconv.Itoa(off)
+}
+
+// gobModelRun ties Model/GobValue.lean to encoding/gob: the type-definition preamble, the bytes of every
+// Encode call, and the model decoder on real streams.
+func gobModelRun(c *run.Ctx, r *kit.Rng, s *kit.Summary, n int) {
+	cd := codecs["gob"]
+	st := &kit.Stream{Name: "gob-model"}
+	type pending struct {
+		x  vegeta.Result
+		op string
+	}
+	var multi []pending
+	var preamble []byte
+	for i := 0; i < n; i++ {
+		rs := genResults(r, "gob")
+		if len(rs) == 0 {
+			continue
+		}
+		w := &recWriter{}
+		enc := vegeta.NewEncoder(w)
+		okAll := true
+		for j := range rs {
+			x := rs[j]
+			before := w.buf.Len()
+			if err := enc.Encode(&x); err != nil {
+				okAll = false
+				break
+			}
+			call := append([]byte{}, w.buf.Bytes()[before:]...)
+			first := j == 0
+			op := fmt.Sprintf("c07.encgob %s %s %s", zoneTok(&x), kit.B(first), gen.ResultLine(&x))
+			if len(x.Headers) <= 1 {
+				st.Add(op, "ok "+kit.Hex(call))
+			} else {
+				multi = append(multi, pending{x, fmt.Sprintf("c07.encgob %s 1 %s", zoneTok(&x), gen.ResultLine(&x))})
+			}
+			if first {
+				// the preamble is what precedes the value message of the first call: constant across streams
+				one, _ := encodeAll(cd, []vegeta.Result{{}})
+				pre := one[:len(one)-4] // the zero Result's value message is 03 ff 80 00
+				if preamble == nil {
+					preamble = pre
+					st.Add("c07.gobpre", "ok "+kit.Hex(pre))
+				} else if !bytes.Equal(pre, preamble) {
+					s.Diverge("gob-model", "c07.gobpre", "preamble changed between streams: "+kit.Hex(pre), kit.Hex(preamble))
+				}
+				if !bytes.HasPrefix(call, pre) {
+					s.Diverge("gob-model", op, "first call does not start with the type-definition preamble", kit.Hex(call))
+				}
+			}
+		}
+		if !okAll {
+			continue
+		}
+		real, term := decodeAll(cd, w.buf.Bytes())
+		st.Add("c07.decgob "+kit.Hex(w.buf.Bytes()), gen.ResultsLine(real, term, false))
+		s.Case(fmt.Sprint("gobmodel:", mkInput("gob", rs)), nontrivial(rs))
+	}
+	st.Diff(c.Driver, s)
+	var ops []string
+	for _, p := range multi {
+		ops = append(ops, p.op)
+	}
+	outs, err := kit.RunDriver(c.Driver, ops)
+	s.Streams["gob-model-encoder-to-real-decoder"] += len(ops)
+	if err != nil {
+		s.Diverge("gob-model-encoder", "(driver failure)", "", err.Error())
+		return
+	}
+	for i, p := range multi {
+		if !strings.HasPrefix(outs[i], "ok ") {
+			s.Diverge("gob-model-encoder", ops[i], "ok", outs[i])
+			continue
+		}
+		// map iteration order is random: the model's bytes (its own key order) through the real decoder
+		back, term := decodeAll(cd, kit.UnHex(outs[i][3:]))
+		if eq, _ := equalAll([]vegeta.Result{p.x}, back); !eq || term != "eof" {
+			s.Diverge("gob-model-encoder", ops[i], "real decoder reads the original result back", "real decoder on the model's bytes: "+gen.ResultsLine(back, term, false))
+		}
+		// and the lengths agree (same bytes up to the order of the map entries)
+		one, _ := encodeAll(cd, []vegeta.Result{p.x})
+		if len(one) != len(kit.UnHex(outs[i][3:])) {
+			s.Diverge("gob-model-encoder", ops[i], fmt.Sprintf("%d bytes", len(one)), fmt.Sprintf("%d bytes", len(kit.UnHex(outs[i][3:]))))
+		}
+	}
+}
+
 // mutated streams: only "both accept a record but with different values" is a divergence
 func mutatedRun(c *run.Ctx, r *kit.Rng, s *kit.Summary, cn string, n int) {
 	cd := codecs[cn]
@@ -922,6 +1021,7 @@ func runC07(c *run.Ctx, s *kit.Summary) {
 	codecRun(c, r, s, "csv", c.N(4000, 150000))
 	codecRun(c, r, s, "json", c.N(4000, 150000))
 	codecRun(c, r, s, "gob", c.N(3000, 80000))
+	gobModelRun(c, r, s, c.N(3000, 100000))
 	mutatedRun(c, r, s, "csv", c.N(2000, 60000))
 	mutatedRun(c, r, s, "json", c.N(2000, 60000))
 }
